@@ -1043,10 +1043,15 @@ def _split_tuple_assignments(fnode):
 
 
 def _identity_comprehensions(fnode):
-    """[x for x in E] -> list(E): one spelling for 'materialise the iterable'"""
+    """[x for x in E] -> list(E): one spelling for 'materialise the iterable';  [f(x) for x in ('a', 'b')] -> [f('a'), f('b')]"""
     class R(ast.NodeTransformer):
         def visit_ListComp(self, n):
             self.generic_visit(n)
+            if len(n.generators) == 1 and not n.generators[0].ifs and isinstance(n.generators[0].target, ast.Name) \
+                    and isinstance(n.generators[0].iter, (ast.Tuple, ast.List)) and 0 < len(n.generators[0].iter.elts) <= MAX_UNROLL \
+                    and all(isinstance(e, ast.Constant) for e in n.generators[0].iter.elts):
+                var = n.generators[0].target.id
+                return ast.copy_location(ast.List(elts=[_Subst({var: e}).visit(clone(n.elt)) for e in n.generators[0].iter.elts], ctx=ast.Load()), n)
             if len(n.generators) == 1 and not n.generators[0].ifs and not n.generators[0].is_async and isinstance(n.elt, ast.Name) \
                     and isinstance(n.generators[0].target, ast.Name) and n.elt.id == n.generators[0].target.id:
                 return ast.copy_location(ast.Call(func=ast.Name(id="list", ctx=ast.Load()), args=[n.generators[0].iter], keywords=[]), n)
